@@ -273,6 +273,7 @@ def worker(ctx, job):
     window = (t0, t1)
     order_ran = serial_order(rep, n)
     accepted = None
+    all_accepted = []
     perms = list(itertools.permutations(range(n)))
     if order_ran is not None:
         perms = [order_ran]
@@ -289,10 +290,13 @@ def worker(ctx, job):
         observe_and_check(ctx, scratch, ctx.srv("sync"), "sync", cache, m, keys_, addrs, sig_prefix="x", replay={})
         res["transitions"] += scratch["transitions"]
         if not scratch["violations"]:
-            accepted = perm
-            break
+            accepted = perm if accepted is None else accepted
+            all_accepted.append("".join(map(str, perm)))
+            if n > 2:
+                break   # for triples the first explaining order is enough (6 permutations x observation vector)
+            continue
         last_diff = scratch["violations"][0]
-    outcome = "serial-order-%s" % ("".join(map(str, accepted)) if accepted else "NONE")
+    outcome = "explained-by-serial-order:%s" % ("+".join(all_accepted) if all_accepted else "NONE")
     V.outcome(res, outcome)
     res["distinct"].add(V.h(sc["id"], tuple(d["chosen"] for d in rep["decisions"])))
     res["extra"]["outcome:%s:%s" % (sc["name"], outcome)] = 1
